@@ -7,6 +7,9 @@
 //! C06 oracle: storage released exactly once, every access of the other endpoint happens-before
 //! the release, no access after release, pools/lakes end empty.
 
+#[global_allocator]
+static ALLOC: p_events_once::PoisonOnFree = p_events_once::PoisonOnFree;
+
 use std::future::Future;
 use std::pin::Pin;
 use std::sync::atomic::Ordering;
